@@ -236,7 +236,7 @@ PROPS["C06"] = {
     "technique": "model-based property testing (rapid): generated valid metadata histories x snapshot/restart splits; determinism, restart-stability and replay-safety relations over the observable metadata view",
     "level_text": "valid metadata histories (create/delete incl. re-create, pause some/all with resumeAll, resume, read-only on/off, ISR shrink/expand, leader change, group create/join/leave/coordinator change, publish-activity) resolved against a model that mirrors the controller's preconditions and applied through the real Server.apply on bare servers: (1) two fresh servers agree after every prefix; (2) a server that applied r operations live, snapshotted at s (Persist possibly after further applies), was shut down and rebuilt on the same data directory from Restore + recovered replay of s+1..r + finishedRecovery + live r+1.. equals a server that applied everything live; (3) marker messages of streams that still exist survive. Unit C06c: a started 3-server cluster (real Raft): create/delete/pause/read-only/join/leave through the controller's API, user-triggered Raft snapshots on any server, servers stopped and started again (restore from their snapshot plus replay of the log behind it; a stopped controller means a failover), operations while a server is down; once every server has applied the same Raft index, all three must hold the same metadata view (streams, partitions, ISR, leaders, epochs, paused/read-only flags, groups, members, group epochs)",
     "level_note": 'unit C06: Raft is replaced by the harness feeding (op, index, recovered), replicas are foreign ids so no data plane starts; unit C06c: real Raft, seconds per history so tens of histories; left-over partition directories of an earlier incarnation of a re-created stream are ignored; in a third of the C06 cases the restarted server takes a second snapshot while it is still replaying the log (before its recovery is finished), and a third incarnation that starts from that snapshot and replays the rest must reach the same state',
-    "rule": 'rapid draws 3-40 operations, snapshot and restart positions and a persist delay. Non-trivial = a snapshot strictly inside the history taken after one of: delete+create, pause->resume, read-only on, leader change, ISR shrink, group emptied. C06c: 9-25 operations with up to two stop/start pairs; non-trivial = a server was restarted after it had taken a snapshot of its own.',
+    "rule": 'unit C06s: a started single-node server with real Raft and a file snapshot store that commits nothing of its own (no cursors or activity stream): 3-14 operations of create / delete / pause / publish / Raft snapshot / restart (up to three); after every restart the metadata view is the one before the stop, every partition the server leads is led again within 20 s, holds the acknowledged messages and accepts a publish; non-trivial = a restart right after a snapshot (nothing to replay behind it). rapid draws 3-40 operations, snapshot and restart positions and a persist delay. Non-trivial = a snapshot strictly inside the history taken after one of: delete+create, pause->resume, read-only on, leader change, ISR shrink, group emptied. C06c: 9-25 operations with up to two stop/start pairs; non-trivial = a server was restarted after it had taken a snapshot of its own.',
     "assumptions": TRUST,
     "units": [
         {"name": "C06", "pkg": "server", "test": "TestVerifC06",
@@ -269,7 +269,7 @@ PROPS["C11"] = {
     "technique": "model-based stateful property testing (rapid): SetCursor/FetchCursor histories with cleans, cache purges, pauses and restarts on a started server against a map",
     "level_text": ("histories of SetCursor/FetchCursor over 3-40 (thorough: 600 > cache size) cursor keys on a started single-node server with a 2-partition cursors stream and tiny "
                    "segments, interleaved with forced compaction of the cursors partitions, cache purges (what a leadership change does), cache bypass, pausing the cursors stream "
-                   "(auto-resumed by the next call) and server restarts; every FetchCursor that returns without error must return the value of the last successful SetCursor (or -1); "
+                   "(auto-resumed by the next call) and server restarts (half of them right after a Raft snapshot; unless the cursors stream was paused in the history, the restarted server must answer a fetch within 20 s); every FetchCursor that returns without error must return the value of the last successful SetCursor (or -1); "
                    "a final sweep fetches every key through the log and through the cache. Unit C11b: three bare servers sharing one NATS server with a 3-replica cursors partition (the harness plays the Raft log, replication is real); "
                    "SetCursor/FetchCursor/clean on the current leader interleaved with changes of the cursors-partition leader among the three (also back to an earlier leader, whose cache must have been purged); "
                    "a fetch on the new leader must return the last acknowledged SetCursor"),
